@@ -4,6 +4,11 @@ and properties.jsonl (every property not claimed goes to not_applicable with its
 import json, os
 here = os.path.dirname(os.path.dirname(os.path.abspath(__file__)))
 claims = json.load(open(os.path.join(here, 'tools', 'claims.json')))
+d = os.path.join(here, 'tools', 'claims.d')
+if os.path.isdir(d):
+    for f in sorted(os.listdir(d)):
+        if f.endswith('.json'):
+            claims['claimed'][f[:-5]] = json.load(open(os.path.join(d, f)))
 props = [json.loads(l) for l in open(os.path.join(here, 'properties.jsonl'))]
 checks, na = [], []
 for p in props:
